@@ -17,8 +17,10 @@ def configs(tier, seed):
             for env in envs:
                 if L == 4 and env[0] == "md5" and env[1] != "a":
                     continue
-                if L == 4 and B == 1 and env[0] != "flip":
-                    continue  # 5^8 states: one environment only
+                if L == 4 and B == 1:
+                    continue  # 5^8 = 390 625 states x 32 requests: beyond the thorough budget
+                if L == 4 and B == 0 and env[0] not in ("flip", "md5"):
+                    continue
                 cfgs.append({"fam": "g", "L": L, "B": B, "env": env})
     n = 4 if tier == "quick" else 6
     for B in ([0, 8] if tier == "quick" else [0, 1, 8, 32]):
